@@ -48,6 +48,7 @@ func (sc c12Script) body(c *explore.Ctx) {
 	closedOK := false
 	cleanupFaultDuringCreate := false
 	randFailed := false
+	closeAttempted := false
 	faultsIn := func(from int) (n int, ops []string) {
 		for _, cl := range mc.Calls[from:] {
 			if cl.Fault {
@@ -189,6 +190,16 @@ func (sc c12Script) body(c *explore.Ctx) {
 			}
 			nf, ops := faultsIn(from)
 			switch {
+			case closedOK:
+				// the secret was closed successfully earlier in the script: every access must be refused
+				if err == nil || called > 0 {
+					c.Failf("access-after-close", "%s after a successful Close ran the callback (err=%v)", step, err)
+				}
+				outcome = append(outcome, step+"=refused")
+			case nf == 0 && closeAttempted && err != nil && strings.Contains(err.Error(), "already been destroyed"):
+				// a Close was started (and failed on an injected fault): refusing readers from then on is within the statement,
+				// which only asks that the Close can be retried
+				outcome = append(outcome, step+"=refused-after-failed-close")
 			case nf == 0:
 				if err != nil || called == 0 {
 					c.Failf("access-failed-without-fault", "%s failed without fault: %v", step, err)
@@ -218,6 +229,7 @@ func (sc c12Script) body(c *explore.Ctx) {
 				continue
 			}
 			var err error
+			closeAttempted = true
 			pan := safe(func() { err = sec.Close() })
 			if pan != "" {
 				c.Failf("panic:close", "Close panicked: %s", pan)
@@ -332,6 +344,8 @@ func c12Scripts(thorough bool) []c12Script {
 			out = append(out,
 				c12Script{name: impl + "/new-reader-with-close", impl: impl, steps: []string{"new", "reader", "with", "close"}},
 				c12Script{name: impl + "/new-with-with-close-close", impl: impl, steps: []string{"new", "with", "with", "close", "close"}},
+				c12Script{name: impl + "/rand-nested-withfunc-reader-close", impl: impl, steps: []string{"rand", "nested", "withfunc", "reader", "close"}},
+				c12Script{name: impl + "/new-close-with-close", impl: impl, steps: []string{"new", "close", "with", "close"}},
 			)
 		}
 	}
@@ -344,7 +358,7 @@ func CheckC12(r *Report) {
 	r.Rule = "scripts of New / CreateRandom / WithBytes / nested WithBytes / WithBytesFunc / NewReader.Read / Close (+ Close again) on both secure-memory implementations over a shadow page table; every placement of up to D failing primitives (Alloc, Lock, Protect x3, Unlock, Free) by call index, plus a failing random source; followed by a fault-free recovery (read, Close); non-trivial = executions with at least one injected fault"
 	dev := 2
 	if r.Thorough() {
-		dev = 3
+		dev = 4
 	}
 	for _, sc := range c12Scripts(r.Thorough()) {
 		sc := sc
